@@ -4,14 +4,19 @@
 From QV Require Export Base.Res Base.Octets Spec.NameWireS Spec.MsgWriterS.
 From QV Require Import Model.MsgWriter.
 
-Record aq := mkAQ { aq_name : wname; aq_exact : bool; aq_ty : N; aq_cl : N }.
-Record arr := mkAR { ar_owner : wname; ar_exact : bool; ar_ty : N; ar_cl : N; ar_ttl : N; ar_rd : bytes }.
+(* [aq_mode] / [ar_mode]: the compression mode in force when the item was written *)
+Record aq := mkAQ { aq_name : wname; aq_mode : cmode; aq_ty : N; aq_cl : N }.
+Record arr := mkAR { ar_owner : wname; ar_mode : cmode; ar_ty : N; ar_cl : N; ar_ttl : N; ar_rd : bytes }.
 Record amsg := mkAM { am_mode : cmode; am_qs : list aq; am_an : list arr; am_ns : list arr; am_ar : list arr }.
 
 Definition am0 : amsg := mkAM Standard [] [] [] [].
 
 (* names must come back exactly unless written in standard mode (then modulo ASCII case) *)
 Definition exact_of (m : cmode) : bool := match m with Standard => false | _ => true end.
+Definition aq_exact (a : aq) : bool := exact_of (aq_mode a).
+Definition ar_exact (a : arr) : bool := exact_of (ar_mode a).
+(* written with compression disabled: no pointer at all may appear in the item *)
+Definition nocomp_of (m : cmode) : bool := match m with Disabled => true | _ => false end.
 
 Definition add_rrs (A : amsg) (s : section) (l : list arr) : amsg :=
   match s with
@@ -28,11 +33,11 @@ Definition astep (A : amsg) (o : wop) (r : outcome) : amsg :=
   match o, r with
   | OSetMode m, _ => mkAM m (am_qs A) (am_an A) (am_ns A) (am_ar A)
   | OAddQuestion n qt qc, RUnit =>
-    mkAM (am_mode A) (am_qs A ++ [mkAQ n (exact_of (am_mode A)) qt qc]) (am_an A) (am_ns A) (am_ar A)
+    mkAM (am_mode A) (am_qs A ++ [mkAQ n (am_mode A) qt qc]) (am_an A) (am_ns A) (am_ar A)
   | OAddRr s _ n ty cl ttl rd _, RUnit =>
-    add_rrs A s [mkAR n (exact_of (am_mode A)) ty cl (ttl_rfc ttl) rd]
+    add_rrs A s [mkAR n (am_mode A) ty cl (ttl_rfc ttl) rd]
   | OAddRrset s _ n ty cl ttl rds _, RUnit =>
-    add_rrs A s (map (mkAR n (exact_of (am_mode A)) ty cl (ttl_rfc ttl)) rds)
+    add_rrs A s (map (mkAR n (am_mode A) ty cl (ttl_rfc ttl)) rds)
   | OClearRrs, _ => mkAM (am_mode A) (am_qs A) [] [] []
   | _, _ => A
   end.
@@ -126,6 +131,6 @@ Definition tsig_rdata_of (a : atsig) : bytes :=
   wire_of (at_alg a) ++ at_time a ++ be16s (at_fudge a) ++ be16s 0 ++ be16s (at_origid a) ++
   be16s (at_error a) ++ be16s (N.of_nat (length other)) ++ other.
 
-Definition pseudo_of (exact : bool) (H : ahdr) : list arr :=
-  (match h_edns H with Some (u, up) => [mkAR [] exact 41 u (up * 16777216)%N []] | None => [] end) ++
-  (match h_tsig H with Some a => [mkAR (at_key a) exact 250 255 0 (tsig_rdata_of a)] | None => [] end).
+Definition pseudo_of (mode : cmode) (H : ahdr) : list arr :=
+  (match h_edns H with Some (u, up) => [mkAR [] mode 41 u (up * 16777216)%N []] | None => [] end) ++
+  (match h_tsig H with Some a => [mkAR (at_key a) mode 250 255 0 (tsig_rdata_of a)] | None => [] end).
